@@ -35,6 +35,18 @@ Proof.
   - inversion H; subst. eapply ShapeIdle; reflexivity.
 Qed.
 
+(** the same, when the caller already knows the sync is not idle *)
+Theorem ers_sync_full : forall sn ch pl e freq cx,
+  ers_sync sn ch = Ok pl -> sn_eds sn = Some e -> is_defaulted e = true ->
+  st_freq (e_strategy e) = Some freq -> sync_gate sn freq = None -> build_ctx sn e freq = Ok cx ->
+  exists so, strategy_of sn ch cx = Ok so /\ finish_sync sn cx so = Ok pl.
+Proof.
+  intros sn ch pl e freq cx H He Hd Hf Hg Hc. unfold ers_sync in H.
+  destruct (N.eqb (r_owner (sn_rs sn)) no_name); [discriminate|].
+  rewrite He, Hd in H. cbn [negb] in H. unfold sync_body in H. rewrite Hf, Hg, Hc in H. cbn [bind] in H.
+  apply bind_ok in H. destruct H as [so [Hs H]]. eauto.
+Qed.
+
 (** ** The context *)
 Lemma build_ctx_fields : forall sn e freq cx, build_ctx sn e freq = Ok cx ->
   cx_eds cx = e /\ cx_freq cx = freq /\ cx_role cx = role_of e (r_name (sn_rs sn)) /\
@@ -49,24 +61,6 @@ Proof.
   intros sn e freq cx H. unfold build_ctx in H.
   apply bind_ok in H. destruct H as [nodes [Hn H]]. apply bind_ok in H. destruct H as [pods [Hp H]].
   inversion H; subst; clear H. cbn. repeat split; assumption.
-Qed.
-
-Lemma dedupN_NoDup : forall l, NoDup (dedupN l).
-Proof.
-  induction l as [|x r IH]; simpl; [constructor|].
-  destruct (memN x r) eqn:E; [assumption|]. constructor; [|assumption].
-  intros Hin. apply memN_false in E. apply E. clear -Hin.
-  induction r as [|y r IH]; simpl in *; [contradiction|].
-  destruct (memN y r) eqn:E; [right; apply IH; assumption|].
-  destruct Hin as [->|Hin]; [left; reflexivity | right; apply IH; assumption].
-Qed.
-
-Lemma dedupN_In : forall x l, In x (dedupN l) <-> In x l.
-Proof.
-  intros x l; induction l as [|y r IH]; simpl; [tauto|].
-  destruct (memN y r) eqn:E.
-  - rewrite IH. split; [tauto|]. intros [->|H]; [apply memN_In; assumption | assumption].
-  - simpl. rewrite IH. tauto.
 Qed.
 
 Lemma find_some_name : forall (nodes : list (node * option setting)) k n os,
